@@ -91,7 +91,11 @@ StoreRows(isa, rows, w, ty, D) ==
 
 \* ---------------------------------------------------------------- results
 Unknown(np) == [unk |-> TRUE, tp |-> 0, lat |-> 0, lw |-> 0, pr |-> Zeros(np), uo |-> << >>]
-OwnResult(m, e) == [unk |-> FALSE, tp |-> e.tp, lat |-> e.lat, lw |-> e.lat, pr |-> Row(e.u, 2, m.np), uo |-> e.u]
+\* an entry may declare no throughput / latency (-1): the value is then 0; the instruction counts as
+\* unknown only if both are missing
+NonNeg(x) == IF x < 0 THEN 0 ELSE x
+OwnResult(m, e) == [unk |-> (e.tp < 0 /\ e.lat < 0), tp |-> NonNeg(e.tp), lat |-> NonNeg(e.lat), lw |-> NonNeg(e.lat),
+                    pr |-> Row(e.u, 2, m.np), uo |-> e.u]
 
 \* does the form store at all?  (AArch64: an operand that is read and written only because its
 \* base register is updated is no store; "A64StoreDropped": the implementation's wider test)
